@@ -68,9 +68,15 @@ class Controller:
 
     # ------------------------------------------------------------------ utilities
     def _write_clock(self):
+        # the history (kernel time stamp of this write -> virtual time) lets the shim translate st_ctime, which nobody can set;
+        # the write happens one kernel tick after everything else has stopped, so that time stamps order strictly
+        time.sleep(0.005)
         tmp = self.clockfile + ".tmp"
         with open(tmp, "w") as f:
             f.write("%d\n" % self.now)
+        ns = os.stat(tmp).st_mtime_ns
+        with open(self.clockfile + ".hist", "a") as f:
+            f.write("%d %d %d\n" % (ns // 1000000000, ns % 1000000000, self.now))
         os.rename(tmp, self.clockfile)
 
     def emit(self, ev):
